@@ -781,7 +781,10 @@ class BV:
         if isinstance(o, int) and o > 0 and o & (o - 1) == 0:
             # Python's % with a positive power-of-two modulus == low bits of the two's complement form
             return BV(self.t & z3.BitVecVal(o - 1, self.w), self.w)
-        raise EncodingGap('BV % non-power-of-two')
+        if isinstance(o, int) and o > 0:
+            # z3's % on bit-vectors is bvsmod (sign of the divisor): for a positive modulus it is Python's %
+            return BV(self.t % z3.BitVecVal(o, self.w), self.w)
+        raise EncodingGap('BV % non-positive or symbolic modulus')
 
     def _c(self, o, f):
         if o is None:
